@@ -34,6 +34,9 @@ CLAIMED = {
     "C19": (SIM + "seeded histories on three ledgers sharing a bucket (one of them created mid-history) and one alone in another bucket, with the same account names, references, idempotency keys and transaction ids everywhere, 2-3 concurrent clients, store faults and crashes; every write statement's ledger predicate is interpreted over bucket-wide tables; invariant at every commit: every changed row belongs to the ledger the committing request addressed",
             "Seeded exploration of the WRITE half of the statement: no write on one ledger changes a row of another; each ledger's journal and state stay explained by its own acknowledged writes (logs-match-ops, replay, conservation per ledger).",
             TRUSTED + "SCOPE LIMIT: the read half of C19 (newScopedSelect and the alone-in-bucket shortcut, resource_*.go) is SQL read code and does not run; it is not decided.", "15/C19"),
+    "C35": (SIM + "differential simulation: two ledgers of one bucket with independently drawn feature sets (all 48 combinations reachable) receive the same sequential history (creates with explicit back-dated / future-dated timestamps, refused writes, scripts setting account and transaction metadata, reverts, metadata saves and deletes), each from its own client, the two clients interleaved by the seeded scheduler; the real storage write path runs over the SQL interpreter, so the feature gates of CommitTransaction and InsertLog execute",
+            "Seeded exploration of the WRITE side of the statement: for every drawn pair of feature sets the transactions, logs, balances and current metadata of the two ledgers must be identical (database-assigned dates and hashes left out); hashes exist only on HASH_LOGS=SYNC ledgers and chain; moves exist only when MOVES_HISTORY=ON.",
+            TRUSTED + "SCOPE LIMIT: the second sentence of C35 (a read that needs a disabled feature is rejected with a missing-feature error) is about the read/resource SQL code, which does not run: not decided. Per-feature triggers (metadata history, effective volumes) are absent or re-implemented, so only what the Go code gates on features is exercised.", "15/C35"),
     "C06": (SIM + "seeded schedules of 2-4 concurrent writers at store-call granularity + commit-sequence invariant on balances vs declared allowance",
             "Seeded exploration of interleavings (and store faults) of concurrent spenders through the real HTTP API; at every simulated commit the balance of each bounded source is compared with its allowance. Sampling, not proof.",
             TRUSTED + "The row locking itself (SELECT ... FOR UPDATE in balances.go) is part of the contract, not checked.", "9/C06"),
@@ -85,7 +88,7 @@ NA_PURE = "pure function of its input: no schedule, clock, fault, crash point or
 
 NOT_APPLICABLE = {
     "C02": NA_READ, "C04": NA_PG, "C05": NA_READ, "C10": NA_PG, "C17": NA_READ,
-    "C20": NA_READ, "C21": NA_READ, "C34": NA_PG, "C35": NA_READ,
+    "C20": NA_READ, "C21": NA_READ, "C34": NA_PG,
     "C22": NA_PURE, "C23": NA_PURE, "C24": NA_PURE, "C26": NA_PURE, "C27": NA_PURE, "C28": NA_PURE, "C30": NA_PURE, "C36": NA_PURE, "C37": NA_PURE,
 }
 
